@@ -1,6 +1,7 @@
 import Gossamer.Base.Proto
 import Gossamer.Lib.ScaleText
 import Gossamer.Model.C12
+import Gossamer.Lib.ScaleMap
 open Gossamer Gossamer.Scale Gossamer.ScaleText
 
 /- line:   e <type> <value> <suffix-hex>      output: <hex> | <decode outcome> [eq=..]
@@ -49,6 +50,7 @@ def step (line : String) : String :=
             let kf := if enc ≠ specEnc then "opt-vdt" else if C12.hasMidUint t v then "uint-5to7" else "none"
             s!"{model}\tspec={spec}\tkf={kf}"
       | _, _ => "bad-op"
+  | ["menc", kts, vts, vals] => ScaleMap.stepEnc kts vts vals
   | ["order", tys] =>
     match parseTy tys with
     | some (.st fs) => "[" ++ ",".intercalate ((C11.fieldOrder (fs.map (·.2))).map toString) ++ "]"
